@@ -26,6 +26,14 @@ def run(tier, seed):
         name = "w%d" % i
         cases.case(name, ws.meta)
         wsgen.emit_setup(cases, ws)
+        # a conftest.py that was open in the editor and has been closed again (its text leaves the cache; the
+        # file on disk is what it was): the workspace, and so every answer, is the same
+        confs = [p for p in ws.files if p.endswith("conftest.py")]
+        if confs and r.rng.random() < 0.3:
+            closed = r.rng.sample(confs, min(len(confs), r.rng.choice([1, 2])))
+            for p in closed:
+                cases.op("close", p)
+            ws.meta["closed"] = closed
         wsgen.emit_queries(cases, ws, probes=("goto",))
         m = ws.meta
         sig = (tuple(sorted(m["modes"].items())), m.get("sibling"), m.get("plugin"), m["thirdparty"], m["nsame"],
